@@ -180,7 +180,7 @@ class CtlSim:
     def address(self, srv=1):
         if self.cfg.get("transport", "tcp") == "unix":
             return ("unix", os.path.join(self.tmpdir, "ctl.sock" if srv == 1 else "ctl2.sock"))
-        return ("tcp", "127.0.0.1", 9999 if srv == 1 else 9998)
+        return ("tcp", self.cfg.get("host", "127.0.0.1"), 9999 if srv == 1 else 9998)
 
     def make_server(self, srv=1):
         from asyncio_taskpool.control.server import TCPControlServer, UnixControlServer
@@ -336,6 +336,7 @@ class CtlSim:
         self.serving_task = None
         self.stopped = False
         self.restarted = True
+        self.epoch = getattr(self, "epoch", 0) + 1
         self.serve_driver = self.loop.create_task(self._drive_serve())
 
     def _op_connect(self, st):
@@ -343,6 +344,7 @@ class CtlSim:
         if lab in self.clients:
             return
         c = Client(lab, "raw")
+        c.epoch = getattr(self, "epoch", 0)
         c.srv = st.get("srv", 1)
         c.pending = []
         c.width = st.get("w", 80)
